@@ -231,6 +231,21 @@ def part2(tier):
                             'what': f'family {name}: {len(log)} body evaluations exceed rules x (len+1) = {bound}'})
             if d == depths[-1]:
                 samples.append({'family': name, 'input_length': len(text), 'body_evaluations': len(log), 'bound': bound})
+    # ... also for rules that are nothing but a literal (tokens), with and without an ignore declaration
+    for gtext in ('ignore / +/\nstart = Stmt*\nStmt = [Expect(Name), Name, "=", Expect(Number), Number, ";"]\nName = /[a-z]+/\nNumber = /[0-9]+/\n',
+                  'start = Stmt*\nStmt = [Expect(Kw), Kw, Expect(Data), Data]\nKw = "data"i\nData = /[0-9a-f]+/\n'):
+        tm, _ = realrun.compile_grammar(gtext)
+        for text in ('alpha = 12; beta = 345;', 'DaTa0fa3', 'dataff'):
+            try:
+                v = tm.parse(text)
+            except Exception:      # noqa: BLE001
+                continue
+            evals += 1
+            for st in v:
+                if any(st[i] is not st[i + 1] for i in range(0, len(st) - 1, 3 if len(st) == 6 else 2)):
+                    bad.append({'key': f'identity-token|{text}', 'kind': 'spec', 'grammar': gtext, 'input': text,
+                                'what': f'a lookahead and the reference after it at one position returned different objects for a token rule on {text!r}: {st}'})
+                    break
     # identity of memoised outcomes
     module, _ = realrun.compile_grammar(IDENTITY)
     for text in ['abcab', 'c', 'bbcb', 'abc']:
